@@ -370,6 +370,9 @@ def main(pid="C09"):
         rep.assume("the chain start_server assembles uses get_access_control_config() unchanged (cross-checked through the real start_server in the thorough tier)")
         if thorough:
             live_assembly(rep, rnd, root)
+        # "as configured ... through to the running server": the command line front end (spec/Assembly.tla)
+        from checks import assembly
+        assembly.main("C09", rep=rep, finish=False)
         sys.exit(rep.finish())
     except tlc.TLCError as e:
         evidence.machinery_failure(pid, e)
